@@ -8,6 +8,7 @@ Copyright (c) 2008, 2009 Centre national de la recherche scientifique (CNRS)
 #define FAST_RATIONALS_H
 
 #include <gmpxx.h>
+#include <mutex>
 #include <cassert>
 #include <climits>
 #include <cstdint>
@@ -77,6 +78,7 @@ class FastRational
     {
         std::stack<mpq_class> store; // uses deque as storage to avoid realloc
         std::stack<mpq_ptr, std::vector<mpq_ptr>> pool;
+        std::mutex mtx; // the pool is shared by all threads
     public:
         mpq_ptr alloc();
         void release(mpq_ptr);
